@@ -527,6 +527,14 @@ def gen_cases(rng, tier, boost):
         yield Case(["ref"], ref=bp, **cm)
     for bad in (dict(as_total="x"), dict(calendar="bogus"), dict(max_results="abc")):
         yield Case(["2000"], local_tz=(0, 0), spell_seed=1, **bad)
+    # a duration with a unit --as-total does not know; print formats only the datetime fallback understands
+    for unit in ("x", "d", "hh", ""):
+        yield Case(["PT1H"], as_total=unit, local_tz=(0, 0), spell_seed=2)
+    for fmt in ("%a %d %b %Y", "%Y-%m-%d %A", "%y%m%d", "%H:%M:%S.%f", "%d/%m/%Y %I%p"):
+        for item in ("2000-02-29T13:45:10Z", "19991231T235959Z", "2020-W53-5T00:00Z", "0999-001T06Z"):
+            yield Case([item], print_format=fmt, local_tz=(0, 0), spell_seed=rng.getrandbits(30))
+            yield Case([item], offsets1=["P1M"], print_format=fmt, utc=True, local_tz=(0, 0),
+                       spell_seed=rng.getrandbits(30))
 
 
 class CliOp(Op):
